@@ -242,18 +242,21 @@ def run_label_accessor(chk, spec):
 	lname, rname = lab(spec["left_label"]), lab(spec["right_label"])
 	L = Table([Vector([1, 2, 3], name=lname), Vector(["L0", "L1", "L2"], name="lid")])
 	R = Table([Vector([3, 1, 1], name=rname), Vector(["R0", "R1", "R2"], name="rid")])
-	o = call(L.inner_join, R, spelling(lname), spelling(rname), expect="many_to_many")
-	chk.judged("sampled", ("label-accessor", spec["left_label"], spec["right_label"], tuple(spec["order"])))
+	how = spec.get("how", "inner")
+	fn = {"inner": L.inner_join, "left": L.join, "full": L.full_join}[how]
+	o = call(fn, R, spelling(lname), spelling(rname), expect="many_to_many")
+	chk.judged("sampled", ("label-accessor", how, spec["left_label"], spec["right_label"], tuple(spec["order"])))
 	if not o.ok:
-		chk.fail("the join is computed for every admissible input", f"join/raises/inner/label-accessor/{type(o.exc).__name__}",
+		chk.fail("the join is computed for every admissible input", f"join/raises/{how}/label-accessor/{type(o.exc).__name__}",
 			f"{spec!r}: join on {spelling(lname)!r} / {spelling(rname)!r} (labels {lname!r} / {rname!r}) raised {o!r}")
 		return
 	names, rows = J.result_rows(o.value)
-	exp = [(1, "L0", 1, "R1"), (1, "L0", 1, "R2"), (3, "L2", 3, "R0")]
+	lcols, rcols = [[1, 2, 3], ["L0", "L1", "L2"]], [[3, 1, 1], ["R0", "R1", "R2"]]
+	exp, _ = J.expected_rows(how, lcols, rcols, J.rows_from([lcols[0]], 3), J.rows_from([rcols[0]], 3))
 	if not J.rows_same(rows, exp):
-		chk.fail("join rows equal the nested-loop definition, in the documented order", "join/wrong-rows/inner/label-accessor", f"{spec!r}: rows {rows!r} vs {exp!r}")
+		chk.fail("join rows equal the nested-loop definition, in the documented order", f"join/wrong-rows/{how}/label-accessor", f"{spec!r}: rows {rows!r} vs {exp!r}")
 	elif [repr(x) for x in names] != [repr(x) for x in (lname, "lid", rname, "rid")]:
-		chk.fail("output carries all left columns then all right columns under their original names", "join/column-names/inner/label-accessor", f"{spec!r}: names {names!r}")
+		chk.fail("output carries all left columns then all right columns under their original names", f"join/column-names/{how}/label-accessor", f"{spec!r}: names {names!r}")
 
 
 def run_chain(chk, spec):
@@ -267,9 +270,98 @@ RUNNERS["derived_right"] = run_derived_right
 RUNNERS["label_accessor"] = run_label_accessor
 
 
+def run_repeated_key_column(chk, spec):
+	"""a composite key that names one column twice with different partners (ship_to = cust AND bill_to = cust; a = x AND a = y): every pair counts"""
+	L, R = common.mk_table(spec["left"]), common.mk_table(spec["right"])
+	ln, lc = J.cells(L)
+	rn, rc = J.cells(R)
+	lkeys = J.rows_from([lc[ln.index(k)] for k in spec["lon"]], len(lc[0]))
+	rkeys = J.rows_from([rc[rn.index(k)] for k in spec["ron"]], len(rc[0]))
+	exp, pairs = J.expected_rows(spec["how"], lc, rc, lkeys, rkeys)
+	lon = [L[k] for k in spec["lon"]] if spec["key_mode"] == "vector" else list(spec["lon"])
+	ron = [R[k] for k in spec["ron"]] if spec["key_mode"] == "vector" else list(spec["ron"])
+	fn = {"inner": L.inner_join, "left": L.join, "full": L.full_join}[spec["how"]]
+	o = call(fn, R, lon, ron, expect=spec["expect"])
+	chk.judged("sampled", ("repeated-key-column", spec["how"], tuple(spec["lon"]), tuple(spec["ron"]), spec["expect"], spec["key_mode"]))
+	lu, ru = J.unique_keys(lkeys), J.unique_keys(rkeys)
+	must_raise = (spec["expect"] in ("one_to_one", "one_to_many") and not lu) or (spec["expect"] in ("one_to_one", "many_to_one") and not ru)
+	if not o.ok and J.refusal_allowed([lc[ln.index(k)] for k in spec["lon"]], [rc[rn.index(k)] for k in spec["ron"]], [L[k].schema() for k in spec["lon"]], [R[k].schema() for k in spec["ron"]]):
+		chk.skip("join-refusal-allowed")
+		return
+	if must_raise:
+		if o.ok:
+			chk.fail("the call raises when a required uniqueness fails (uniqueness of the whole key tuples)", f"cardinality/accepted/{spec['how']}/{spec['expect']}/repeated-key-column", f"{spec!r}: returned", prop="C11")
+		return
+	if not o.ok:
+		chk.fail("the join is computed for every admissible input", f"join/raises/{spec['how']}/repeated-key-column/{type(o.exc).__name__}", f"{spec!r}: raised {o!r} (key tuples L {lkeys} R {rkeys})", prop=chk.pid if chk.pid != "C11" else "C11")
+		return
+	got = J.result_rows(o.value)[1]
+	if (got or exp) and not J.rows_same(got, exp):
+		chk.fail("join rows equal the nested-loop definition, in the documented order", f"join/{J.describe_diff(got, exp)}/{spec['how']}/repeated-key-column", f"{spec!r}: rows {short(got, 240)} vs model {short(exp, 240)}")
+
+
+def run_empty_chain(chk, spec):
+	a, b = Table({"k": [1, 2]}), Table({"k": [3, 4]})
+	e1 = call(a.inner_join, b, "k", "k", expect="many_to_many")
+	e2 = call(b.inner_join, a, "k", "k", expect="many_to_many")
+	chk.judged("sampled", ("empty-chain", spec["how"], spec["keyform"]))
+	if not (e1.ok and e2.ok) or len(e1.value) or len(e2.value):
+		chk.skip("empty-chain-setup")
+		return
+	fn = {"inner": e1.value.inner_join, "left": e1.value.join, "full": e1.value.full_join}[spec["how"]]
+	k = (Vector([]), Vector([])) if spec["keyform"] == "vector-empty" else ([Vector([])], [Vector([])])
+	for expect in ("many_to_many", "one_to_one"):
+		o = call(fn, e2.value, k[0], k[1], expect=expect)
+		if not o.ok:
+			chk.fail("the join is computed for every admissible input (two results without rows join to a result without rows)", f"join/raises/{spec['how']}/empty-with-empty/{type(o.exc).__name__}", f"{spec!r} expect={expect}: {o!r}")
+			return
+		if not isinstance(o.value, Table) or len(o.value) != 0:
+			chk.fail("join rows equal the nested-loop definition", f"join/extra-rows/{spec['how']}/empty-with-empty", f"{spec!r}: {short(o.value, 100)}")
+			return
+
+
+RUNNERS["repeated_key_column"] = run_repeated_key_column
+RUNNERS["empty_chain"] = run_empty_chain
+
+
+def repeated_key_cases(chk, how, count, expects=("many_to_many",)):
+	rng = chk.rng
+	for _ in range(count):
+		nl, nr = rng.choice([1, 2, 3, 4]), rng.choice([1, 2, 3, 4])
+		side = rng.choice(["left-twice", "right-twice", "both"])
+		dom = [1, 2, None] if rng.random() < 0.2 else [1, 2]
+		left = {"names": ["a", "b", "lid"], "cols": [[rng.choice(dom) for _ in range(nl)], [rng.choice(dom) for _ in range(nl)], [f"L{i}" for i in range(nl)]]}
+		right = {"names": ["x", "y", "rid"], "cols": [[rng.choice(dom) for _ in range(nr)], [rng.choice(dom) for _ in range(nr)], [f"R{i}" for i in range(nr)]]}
+		lon, ron = {"left-twice": (["a", "a"], ["x", "y"]), "right-twice": (["a", "b"], ["x", "x"]), "both": (["a", "b", "a"], ["x", "x", "y"])}[side]
+		chk.case("repeated_key_column", {"left": left, "right": right, "lon": lon, "ron": ron, "how": how, "expect": rng.choice(list(expects)), "key_mode": rng.choice(["name", "vector"])}, "repeated-key-column")
+
+
+def label_cases(chk, hows):
+	labels = ["1", "True", "1.0", "2023", "2023.0", "0", "False"]
+	for how in hows:
+		for a in labels:
+			for b in labels:
+				for order in ([a, b], [b, a], [x for x in labels if x not in (a, b)][:2] + [a]):
+					chk.case("label_accessor", {"left_label": a, "right_label": b, "order": order, "how": how}, "label-accessor")
+
+
 def extra_cases(chk, how, count):
 	"""self joins, derived right tables (shared by the inner / left / full families)"""
 	rng = chk.rng
+	repeated_key_cases(chk, how, count)
+	# a long right table with dense non-negative int keys (direct-address tables, sorted-run merges ...) and left keys outside its range
+	for _ in range(6 if chk.quick() else 40):
+		nr = rng.choice([512, 600, 1024])
+		rk = list(range(nr))
+		if rng.random() < 0.5:
+			rng.shuffle(rk)
+		lk = [rng.choice([-1, -5, 0, nr - 1, nr, nr + 7, 3, -nr, None]) for _ in range(rng.choice([3, 6]))]
+		spec = {"op": "join", "how": how, "left": {"names": ["k", "lid"], "cols": [lk, [f"L{i}" for i in range(len(lk))]]}, "right": {"names": ["r", "rid"], "cols": [rk, [f"R{i}" for i in range(nr)]]},
+			"lon": ["k"], "ron": ["r"], "key_mode": rng.choice(["name", "vector"]), "single_as_scalar": rng.choice([True, False, "left-only"]), "expect": "many_to_many"}
+		chk.case("join", spec, "sampled-dense-big-right")
+	# results without any column (joins that matched nothing) joined with each other
+	for keyform in ("vector-empty", "list-empty"):
+		chk.case("empty_chain", {"how": how, "keyform": keyform}, "empty-chain")
 	for _ in range(count):
 		n = rng.choice([2, 3, 4, 6])
 		ids = list(range(1, n + 1))
@@ -299,8 +391,4 @@ def run(chk):
 	from . import c10
 	c10.chain_cases(chk, 150 if chk.quick() else 1000, ["inner"], ["inner"])
 	extra_cases(chk, HOW, 150 if chk.quick() else 1000)
-	labels = ["1", "True", "1.0", "2023", "2023.0", "0", "False"]
-	for a in labels:
-		for b in labels:
-			for order in ([a, b], [b, a], [x for x in labels if x not in (a, b)][:2] + [a]):
-				chk.case("label_accessor", {"left_label": a, "right_label": b, "order": order}, "label-accessor")
+	label_cases(chk, [HOW])
